@@ -548,6 +548,8 @@ class ProgGen(object):
     def gen_call(self, c, depth=1, extra=()):
         if self.call_sites <= 0:
             return None
+        if self.foreach_depth > 0 and not self.create_in_loops and not c['pure']:
+            return None     # a callee that creates instances, per element of an instance set: the population would multiply
         self.call_sites -= 1
         args = [[n, (['int', self.rng.choice([0, 0, 1, 1, 2])] if n == 'cnt' else self.gen_expr(t, min(depth, 1), extra))]
                 for n, t in c['params']]
